@@ -5,6 +5,7 @@
 package verifsim
 
 import (
+	"crypto/sha256"
 	"encoding/json"
 	"flag"
 	"fmt"
@@ -17,42 +18,88 @@ var (
 	flagCount   = flag.Int("sim.count", 1, "number of consecutive seeds")
 	flagProfile = flag.String("sim.profile", "C01", "property profile")
 	flagReplay  = flag.String("sim.replay", "", "replay file")
-	flagOut     = flag.String("sim.out", "", "write one JSON result per line to this file")
-	flagVerbose = flag.Bool("sim.v", false, "keep the full trace")
+	flagVerbose = flag.Bool("sim.v", false, "keep the full trace and the action list")
+	flagDry     = flag.Bool("sim.dry", false, "unused")
+	flagSample  = flag.Uint64("sim.sample", 50, "every n-th run carries a written-out sample")
 )
 
+type replayFile struct {
+	Property  string    `json:"property"`
+	Signature string    `json:"signature"`
+	Config    RunConfig `json:"config"`
+	Actions   []Action  `json:"actions"`
+}
+
+// Sample is one explored case written out for the evidence file.
+type Sample struct {
+	Seed    uint64   `json:"seed"`
+	Config  string   `json:"config"`
+	Actions []string `json:"actions"`
+}
+
+func actionsHash(as []Action) string {
+	b, _ := json.Marshal(as)
+	h := sha256.Sum256(b)
+	return fmt.Sprintf("%x", h[:8])
+}
+
+func finish(res *RunResult, verbose bool, sample bool) {
+	res.ActionsHash = actionsHash(res.Actions)
+	if sample {
+		sm := &Sample{Seed: res.Config.Seed}
+		cb, _ := json.Marshal(res.Config)
+		sm.Config = string(cb)
+		for i, a := range res.Actions {
+			if i >= 40 {
+				sm.Actions = append(sm.Actions, fmt.Sprintf("... %d more", len(res.Actions)-i))
+				break
+			}
+			ab, _ := json.Marshal(a)
+			s := string(ab)
+			if len(s) > 300 {
+				s = s[:300] + "…"
+			}
+			sm.Actions = append(sm.Actions, s)
+		}
+		res.Sample = sm
+	}
+	if !verbose && res.Violation == nil && res.Harness == "" {
+		res.Actions = nil
+	}
+}
+
 func TestSim(t *testing.T) {
-	var out *os.File
-	if *flagOut != "" {
-		f, err := os.Create(*flagOut)
+	emit := func(r *RunResult) {
+		b, _ := json.Marshal(r)
+		fmt.Println(string(b))
+	}
+	if *flagReplay != "" {
+		b, err := os.ReadFile(*flagReplay)
 		if err != nil {
 			t.Fatal(err)
 		}
-		defer f.Close()
-		out = f
-	}
-	emit := func(r *RunResult) {
-		b, _ := json.Marshal(r)
-		if out != nil {
-			out.Write(append(b, '\n'))
-		} else {
-			fmt.Println(string(b))
+		var rf replayFile
+		if err := json.Unmarshal(b, &rf); err != nil {
+			t.Fatal(err)
 		}
+		fmt.Printf("BEGIN %d\n", rf.Config.Seed)
+		acts := rf.Actions
+		if acts == nil {
+			acts = []Action{}
+		}
+		res := Run(t, rf.Config, acts, true)
+		finish(res, true, false)
+		emit(res)
+		fmt.Printf("END %d\n", rf.Config.Seed)
+		return
 	}
 	for i := 0; i < *flagCount; i++ {
 		seed := *flagSeed + uint64(i)
 		fmt.Printf("BEGIN %d\n", seed)
 		cfg := profileConfig(*flagProfile, seed)
 		res := Run(t, cfg, nil, *flagVerbose)
-		if !*flagVerbose && res.Violation == nil && res.Harness == "" {
-			res.Actions = nil
-		}
+		finish(res, *flagVerbose, seed%*flagSample == 0)
 		emit(res)
 		fmt.Printf("END %d\n", seed)
 	}
-}
-
-func profileConfig(p string, seed uint64) RunConfig {
-	return RunConfig{Seed: seed, Profile: p, Driver: "gtp5g", RetransMs: 1009, MaxRetrans: 2, NSMF: 2, NSlots: 3, Steps: 40,
-		Interpose: true, AutoFwd: true, AutoAnswer: true, MapOrder: "seeded", LogLevel: "error"}
 }
